@@ -37,6 +37,8 @@ DIMS = {
     "m": dict(letter="m", name="material", items=["steel", "wood", "glass"], dtype="str"),
     "e": dict(letter="e", name="element", items=[6, 26], dtype="int"),
     "y": dict(letter="y", name="year", items=[1990, 2000, 2010, 2020], dtype="int"),
+    # text items that look like numbers (codes with leading zeros); only in the dimension-file stream
+    "c": dict(letter="c", name="code", items=["01", "02", "10"], dtype="str"),
 }
 CLASSES = ["SimpleFlowDrivenStock", "InflowDrivenDSM", "StockDrivenDSM"]
 LIFETIMES = ["FixedLifetime", "NormalLifetime", "LogNormalLifetime", "WeibullLifetime", "FoldedNormalLifetime"]
@@ -69,6 +71,9 @@ def gen_definition(rng, k):
         stocks.append(dict(name=f"stock {i}", process=(rng.choice(procs[1:]) if len(procs) > 1 and rng.random() < 0.8 else None),
                            dims=d, time=tl, cls=cls, lifetime=(rng.choice(LIFETIMES) if cls else None),
                            solver=rng.choice(["manual", "lapack"])))
+    if stocks and rng.random() < 0.4:
+        # a second stock of the same class, lifetime model, dimensions and time letter: still a stock of its own
+        stocks.append(dict(stocks[rng.randrange(len(stocks))], name="stock twin"))
     params = []
     for i in range(rng.randint(0, 3)):
         params.append(dict(name=f"par{i}", dims=rng.sample(letters, rng.randint(1, len(letters)))))
@@ -204,6 +209,10 @@ def _observe_system(mfa_like):
                             lt_time=(s.lifetime_model.time_letter if hasattr(s, "lifetime_model") else None),
                             lt_dims=([x.letter for x in s.lifetime_model.dims] if hasattr(s, "lifetime_model") else None),
                             solver=getattr(s, "solver", None),
+                            # objects this stock shares with a stock listed before it (lifetime model, value buffers)
+                            shares=[k2 for k2, s2 in list(stocks.items())[: list(stocks).index(k)]
+                                    if (hasattr(s, "lifetime_model") and hasattr(s2, "lifetime_model") and s.lifetime_model is s2.lifetime_model)
+                                    or any(np.shares_memory(getattr(s, q).values, getattr(s2, q2).values) for q in ("stock", "inflow", "outflow") for q2 in ("stock", "inflow", "outflow"))],
                             zero=bool(np.all(s.stock.values == 0) and np.all(s.inflow.values == 0) and np.all(s.outflow.values == 0)))
                        for k, s in stocks.items()],
                params={k: dict(dims=[x.letter for x in p.dims], values=observe_values(p.values)) for k, p in (params or {}).items()})
@@ -332,6 +341,8 @@ def oracle(case, obs):
                 return f"stock {s['name']} differs from its definition (class/lifetime/process/time/dims) {desc}"
             if sd["cls"] and (s["lt_time"] != sd["time"] or s["lt_dims"] != sd["dims"]):
                 return f"stock {s['name']}: its lifetime model has time letter {s['lt_time']!r} / dims {s['lt_dims']} instead of {sd['time']!r} / {sd['dims']} {desc}"
+            if s.get("shares"):
+                return f"stock {s['name']} shares its lifetime model or its arrays with stock {s['shares'][0]} (one stock per definition) {desc}"
             if sd["cls"] == 2 and s["solver"] != sd["solver"]:
                 return f"stock {s['name']}: solver {s['solver']!r} instead of the requested {sd['solver']!r} {desc}"
     if case["via"] != "direct":
